@@ -53,4 +53,13 @@ PROPS = {
         ],
         "trusted_base": ["modelled: check_if_response_is_matched, SendLastStateProofProcess::execute, commit_prove_state, check_continuous_headers, is_parent_of"],
     },
+    "C11": {
+        "ops": [("sys", "RunSys", {"quick": 120, "thorough": 2000})],
+        "rule": "event histories (6..30 events, plus closing rounds in the honest stratum) over 1-3 peers on a variable-difficulty main chain and a fork: "
+                "connect, disconnect, refresh ticks with clock jumps around the 8 s / 60 s thresholds, last-state announcements (honest growth by 0, 1, "
+                "<= last-N+1, many blocks; stale; other chain; forged child; bad chain root), proofs (honest, 16-operator mutations, unsolicited); "
+                "one case = one whole history, compared step by step with Model/System.v; distinct = distinct history",
+        "assumptions": ["request contents (random samples) are event inputs taken from what the implementation sent"],
+        "trusted_base": ["modelled: PeerState transitions, Peers add/remove/get_peers_which_*, SendLastStateProcess, get_last_state(_proof), refresh_all_peers, update_prove_state_to_child"],
+    },
 }
